@@ -46,9 +46,15 @@ pub fn c19g(ctx: &Ctx, begin: &mut dyn FnMut(J)) -> Outcome {
         "simple pt\n\"A helper type\"\n(\n int x; \"x\"\n int y; \"y\"\n)\n\n{}",
         custom
     );
+    // the same schema with other token separators (DOS line endings; tabs, vertical tab and form feed):
+    // white space between tokens does not change what is declared
+    let custom_crlf = custom.replace('\n', "\r\n");
+    let custom_ws = custom.replace("\n ", "\n\t").replace("; ", ";\t").replace(")\n", ")\u{b}\u{c}\n");
     for (label, autosql, want_text, want_count) in [
         ("generated", Some(schema.clone()), Some(schema.clone()), 3 + n),
         ("custom", Some(custom.clone()), Some(custom.clone()), 3 + n),
+        ("custom_crlf", Some(custom_crlf.clone()), Some(custom_crlf.clone()), 3 + n),
+        ("custom_tabs_vt_ff", Some(custom_ws.clone()), Some(custom_ws.clone()), 3 + n),
         ("custom_helper_type_then_table", Some(helper_then_table.clone()), Some(helper_then_table.clone()), 3 + n),
         ("default", None, Some(BED3.to_string()), 3),
     ] {
